@@ -28,10 +28,10 @@ pub fn mon() -> Mon {
 fn plan(cfg: &RunCfg) -> EncPlan {
     let mut p = EncPlan::new(&ALL_FORMS);
     p.len_max = 300;
-    p.len_reps = cfg.pick(1, 40) as u32;
+    p.len_reps = cfg.pick(4, 40) as u32;
     p.extra_lens = vec![301, 320, 400, 505, 506, 507, 508, 509, 510, 511, 512, 513, 514, 515, 516, 517, 518, 519, 520, 600];
     p.max_body = 270;
-    p.random_per_form = cfg.pick(1500, 300_000);
+    p.random_per_form = cfg.pick(10_000, 300_000);
     p.param_sweep_reps = cfg.pick(1, 10) as u32;
     p.addr_sweep_reps = cfg.pick(1, 10) as u32;
     p.pair_forms = ALL_FORMS.to_vec();
@@ -123,7 +123,7 @@ fn run(cfg: &RunCfg) -> Report {
     let pc = CtxCfg::simple(0x5A);
     crate::libapi::with_ctx(&pc, |probe| {
         for_each_call(cfg, "c04", &p, &mut |c, _| check(c, probe, &mut rep));
-        let n = if cfg.is_small() { 200 } else { cfg.pick(40_000, 4_000_000) };
+        let n = if cfg.is_small() { 200 } else { cfg.pick(200_000, 4_000_000) };
         let mut rrep = Report::new();
         for_each_response(cfg, "c04-responder", n, &mut |req, resp, who, rep| check_response(req, resp, who, probe, rep), &mut rrep);
         rep.merge(rrep);
